@@ -68,6 +68,17 @@ def h_pack(ctx, twin=False, form=None):
     h.packet_len, h.header_len
     h.data_len = dl2
     ctx.holds("packet_len follows an assigned data length", sym_and(h.packet_len == dl2 + 7, h.pack() == ctx.bytes_of(ref_octets(ver, ptype, shf, apid, sf, sc, dl2))))
+    # every settable field assigned a second in-range value: the header then packs exactly the final values (no bit of the
+    # earlier count / APID / flags survives) and decodes back to them
+    sc2, ap2, sf2 = ctx.int("sc2", 0, 16383), ctx.int("ap2", 0, 2047), ctx.int("sf2", 0, 3)
+    e, _ = call(setattr, h, "seq_count", sc2)
+    ctx.holds("seq_count assignment in range accepted", e is None, exc_name(e))
+    ctx.holds("assigned seq_count is packed exactly", sym_and(h.seq_count == sc2, h.pack() == ctx.bytes_of(
+        ref_octets(ver, ptype, shf, apid, sf, sc2, dl2))))
+    h.apid = ap2
+    h.seq_flags = SequenceFlags(sf2)
+    ctx.holds("assigned apid / seq_flags are packed exactly", sym_and(h.apid == ap2, h.seq_count == sc2, h.pack() == ctx.bytes_of(
+        ref_octets(ver, ptype, shf, ap2, sf2, sc2, dl2))))
     if twin:
         ctx.holds("twin", raw != ref)
 
